@@ -37,7 +37,8 @@ struct KString : Kind {
   void assign(void* d, void* s) override { *(String*)d = *(String*)s; }
   void modify(void* h, int tid, int n, std::string& m) override {
     char c = (char)('A' + tid); String& s = *(String*)h;
-    switch (((n % 5) + 5) % 5) {
+    switch (((n % 6) + 6) % 6) {
+      case 5: { static const char FOREIGN[] = "attached-foreign-text"; s.attach(FOREIGN, sizeof FOREIGN - 1); m = FOREIGN; break; }   // the handle is pointed at memory it does not own: its share of the old payload has to be given up
       case 1: s.append(c); m += c; break;
       case 2: { s.printf("%c%d", c, n); char b[32]; snprintf(b, sizeof b, "%c%d", c, n); m = b; break; }   // formatting replaces the value
       case 3: s.toUpperCase(); for (auto& ch : m) if (ch >= 'a' && ch <= 'z') ch = (char)(ch - 32); s.append(c); m += c; break;
@@ -70,6 +71,30 @@ struct KVarList : Kind {
   std::string read(void* h) override { return show(*(const Variant*)h); }
   void clear(void* h, std::string& m) override { ((Variant*)h)->clear(); m = "[]"; }
   std::string initial(int p) override { return "[" + std::to_string(p) + ",7,]"; }
+  bool swap(void* a, void* b) override { ((Variant*)a)->swap(*(Variant*)b); return true; }
+};
+struct KVarMap : Kind {
+  static std::string show(const Variant& v) { std::string r = "{"; const HashMap<String, Variant>& mp = v.toMap(); for (HashMap<String, Variant>::Iterator i = mp.begin(); i != mp.end(); ++i) { r += std::string((const char*)i.key(), i.key().length()); r += "="; r += std::to_string((*i).toInt()); r += ","; } return r + "}"; }
+  void* make(int p) override { HashMap<String, Variant> mp; mp.append(String("p"), Variant(p)); mp.append(String("q"), Variant(7)); return new Variant(mp); }
+  void* copy(void* s) override { return new Variant(*(Variant*)s); }
+  void destroy(void* h) override { delete (Variant*)h; }
+  void assign(void* d, void* s) override { *(Variant*)d = *(Variant*)s; }
+  void modify(void* h, int tid, int n, std::string& m) override { std::string key = "t" + std::to_string(tid) + "_" + std::to_string(n); ((Variant*)h)->toMap().append(String(key.data(), key.size()), Variant(100 + tid)); if (m.find("," + key + "=") == std::string::npos && m.find("{" + key + "=") == std::string::npos) m.insert(m.size() - 1, key + "=" + std::to_string(100 + tid) + ","); }   // (an existing key keeps its place, the value is the same)
+  std::string read(void* h) override { return show(*(const Variant*)h); }
+  void clear(void* h, std::string& m) override { ((Variant*)h)->clear(); m = "{}"; }
+  std::string initial(int p) override { return "{p=" + std::to_string(p) + ",q=7,}"; }
+  bool swap(void* a, void* b) override { ((Variant*)a)->swap(*(Variant*)b); return true; }
+};
+struct KVarArray : Kind {
+  static std::string show(const Variant& v) { std::string r = "<"; const Array<Variant>& l = v.toArray(); for (usize i = 0; i < l.size(); ++i) { r += std::to_string(l[i].toInt()); r += ","; } return r + ">"; }
+  void* make(int p) override { Array<Variant> l; l.append(Variant(p)); l.append(Variant(7)); return new Variant(l); }
+  void* copy(void* s) override { return new Variant(*(Variant*)s); }
+  void destroy(void* h) override { delete (Variant*)h; }
+  void assign(void* d, void* s) override { *(Variant*)d = *(Variant*)s; }
+  void modify(void* h, int tid, int, std::string& m) override { ((Variant*)h)->toArray().append(Variant(100 + tid)); m.insert(m.size() - 1, std::to_string(100 + tid) + ","); }
+  std::string read(void* h) override { return show(*(const Variant*)h); }
+  void clear(void* h, std::string& m) override { ((Variant*)h)->clear(); m = "<>"; }
+  std::string initial(int p) override { return "<" + std::to_string(p) + ",7,>"; }
   bool swap(void* a, void* b) override { ((Variant*)a)->swap(*(Variant*)b); return true; }
 };
 struct KPtr : Kind {
@@ -115,8 +140,8 @@ struct KXml : Kind {
   }
 };
 
-Kind* kindOf(int k) { static KString a; static KVarString b; static KVarList c; static KPtr d; static KXml e; static KPtrConv f; switch (k) { case 0: return &a; case 1: return &b; case 2: return &c; case 3: return &d; case 5: return &f; default: return &e; } }
-const int NKIND = 6;
+Kind* kindOf(int k) { static KString a; static KVarString b; static KVarList c; static KPtr d; static KXml e; static KPtrConv f; static KVarMap g; static KVarArray hh; switch (k) { case 0: return &a; case 1: return &b; case 2: return &c; case 3: return &d; case 5: return &f; case 6: return &g; case 7: return &hh; default: return &e; } }
+const int NKIND = 8;
 inline bool isPtrKind(int k) { return k == 3 || k == 5; }
 
 }  // namespace c09
